@@ -22,7 +22,9 @@ Section M.
   Lemma fold_rot ops : forall s, st_rot (fold_left step' ops s) = acc_rot rnd (st_rot s) ops.
   Proof.
     induction ops as [|o ops IH]; intro s; [reflexivity|].
-    cbn [fold_left acc_rot]. rewrite IH. destruct o; reflexivity.
+    cbn [fold_left acc_rot]. rewrite IH. unfold step.
+    destruct o as [M [n|]| |]; cbn [op_accepted]; try reflexivity.
+    destruct (n3_pos n); reflexivity.
   Qed.
 
   Lemma run_rot ops : st_rot (run' ops) = acc_rot rnd mid ops.
@@ -30,24 +32,45 @@ Section M.
 
   (* after a history that ends with a rotation the field is the rotation of the ORIGINAL field by the
      accumulated matrix, whatever the intermediate fields and resolutions were *)
-  Lemma run_field ops M nopt :
+  Lemma run_field ops M nopt : op_accepted (ORot M nopt) = true ->
     let R := acc_rot rnd mid (ops ++ [ORot M nopt]) in
     run' (ops ++ [ORot M nopt]) =
     St R (rotated_field rnd nv perm orig R (match nopt with Some n => n | None => choose_n R end)).
   Proof.
-    intro R. rewrite run_app. cbn [fold_left step].
+    intros A R. rewrite run_app. cbn [fold_left]. unfold step at 1. rewrite A.
     assert (E : mmul rnd M (st_rot (run' ops)) = R).
-    { unfold R. rewrite run_rot. generalize mid. induction ops as [|o t IH]; intro a; [reflexivity|].
-      destruct o; cbn [app acc_rot]; apply IH. }
+    { unfold R. rewrite run_rot. generalize mid. induction ops as [|o t IH]; intro a.
+      - cbn [app acc_rot]. rewrite A. reflexivity.
+      - destruct o; cbn [app acc_rot]; apply IH. }
     rewrite E. reflexivity.
+  Qed.
+
+  (* a refused call is the identity on the state (field AND accumulated rotation) *)
+  Lemma refused_step_identity s o : op_accepted o = false -> step' s o = s.
+  Proof. intro H. unfold step. rewrite H. reflexivity. Qed.
+
+  (* ... hence refused calls can be erased from any history: the state is that of the accepted calls *)
+  Lemma refused_steps_erasable ops : run' ops = run' (filter op_accepted ops).
+  Proof.
+    unfold run. generalize (init orig). induction ops as [|o t IH]; intro s; [reflexivity|].
+    cbn [fold_left filter]. destruct (op_accepted o) eqn:A.
+    - cbn [fold_left]. apply IH.
+    - rewrite (refused_step_identity s o A). apply IH.
+  Qed.
+
+  Lemma acc_rot_erasable ops a : acc_rot rnd a ops = acc_rot rnd a (filter op_accepted ops).
+  Proof.
+    revert a. induction ops as [|o t IH]; intro a; [reflexivity|].
+    destruct o as [M [n|]| |]; cbn [filter op_accepted acc_rot]; try apply IH.
+    destruct (n3_pos n) eqn:A; cbn [acc_rot op_accepted]; rewrite ?A; apply IH.
   Qed.
 
   Lemma acc_rot_app ops1 ops2 a : acc_rot rnd a (ops1 ++ ops2) = acc_rot rnd (acc_rot rnd a ops1) ops2.
   Proof. revert a. induction ops1 as [|o t IH]; intro a; [reflexivity|]. destruct o; cbn [app acc_rot]; apply IH. Qed.
 
-  Lemma acc_rot_last ops M nopt a :
+  Lemma acc_rot_last ops M nopt a : op_accepted (ORot M nopt) = true ->
     acc_rot rnd a (ops ++ [ORot M nopt]) = mmul rnd M (acc_rot rnd a ops).
-  Proof. rewrite acc_rot_app. reflexivity. Qed.
+  Proof. intro A. rewrite acc_rot_app. cbn [acc_rot]. rewrite A. reflexivity. Qed.
 
   Lemma rotated_val_fast_eq R n' : rotated_val_fast rnd nv perm orig R n' = rotated_val rnd nv perm orig R n'.
   Proof. reflexivity. Qed.
@@ -85,33 +108,40 @@ Section Exact.
 
   (* later rotations are applied after earlier ones: the accumulated matrix of a clear-free history acts
      on a vector like the steps applied one after the other *)
+  (* the accepted rotations of a history applied to a vector one after the other (refused calls skipped) *)
   Fixpoint apply_steps (ops : list op) (v : vec3) : vec3 :=
     match ops with
     | [] => v
-    | ORot M _ :: t => apply_steps t (mapply rnd M v)
+    | ORot M nopt :: t => apply_steps t (if op_accepted (ORot M nopt) then mapply rnd M v else v)
     | OClear :: t => apply_steps t v
+    | ORefused :: t => apply_steps t v
     end.
+  (* histories of rotate() calls, accepted or refused, without clear_rotation *)
   Fixpoint no_clear (ops : list op) : Prop :=
-    match ops with [] => True | ORot _ _ :: t => no_clear t | OClear :: _ => False end.
+    match ops with [] => True | ORot _ _ :: t => no_clear t | OClear :: _ => False | ORefused :: t => no_clear t end.
+
+  Lemma apply_steps_veq ops : forall u w, veq u w -> veq (apply_steps ops u) (apply_steps ops w).
+  Proof.
+    induction ops as [|o t IH]; intros u w E; [exact E|].
+    destruct o as [M nopt| |]; cbn [apply_steps]; try (apply IH; exact E).
+    destruct (op_accepted (ORot M nopt)); apply IH; [apply mapply_veq, E|exact E].
+  Qed.
 
   Lemma acc_rot_acts ops : no_clear ops -> forall A v,
     veq (mapply rnd (acc_rot rnd A ops) v) (apply_steps ops (mapply rnd A v)).
   Proof.
     induction ops as [|o t IH]; intros NC A v.
     - repeat split; reflexivity.
-    - destruct o as [M nopt|]; [|destruct NC]. cbn [acc_rot apply_steps].
-      eapply veq_trans; [apply IH, NC|].
-      clear IH NC. generalize (mapply_mmul M A v). generalize (mapply rnd (mmul rnd M A) v), (mapply rnd M (mapply rnd A v)).
-      intros u w E. revert u w E. induction t as [|o t IH]; intros u w E; [exact E|].
-      destruct o; cbn [apply_steps]; apply IH; [apply mapply_veq, E | exact E].
+    - destruct o as [M nopt| |]; [|destruct NC|]; cbn [acc_rot apply_steps].
+      + destruct (op_accepted (ORot M nopt)).
+        * eapply veq_trans; [apply IH, NC|]. apply apply_steps_veq, mapply_mmul.
+        * apply IH, NC.
+      + apply IH, NC.
   Qed.
 
   Lemma compose_in_order ops : no_clear ops -> forall v,
     veq (mapply rnd (acc_rot rnd mid ops) v) (apply_steps ops v).
   Proof.
-    intros NC v. eapply veq_trans; [apply acc_rot_acts, NC|].
-    generalize (mapply_mid v). generalize (mapply rnd mid v). intros u E. revert u v E.
-    induction ops as [|o t IH]; intros u v E; [exact E|].
-    destruct o; [|destruct NC]. cbn [apply_steps]. apply IH; [exact NC | apply mapply_veq, E].
+    intros NC v. eapply veq_trans; [apply acc_rot_acts, NC|]. apply apply_steps_veq, mapply_mid.
   Qed.
 End Exact.
